@@ -21,6 +21,7 @@ Record case := {
   c_meta : option meta;             (* metadata sent explicitly; None = omitted by the client *)
   c_groups : option sent; c_lines : option sent; c_trie : option sent; c_tree : option sent;
   c_job : option upload_job;        (* the job handed to remote / direct *)
+  c_series : option (bytes * list (bytes * bytes));   (* the series of the remote job, structured: application name, tags *)
   c_remote : option (query * bytes * stored);   (* query and content type the server received, result *)
   c_direct : option stored;
   c_go_groups : option (list (bytes * Z) * bool);   (* convert.ParseGroups on the groups body: callbacks, err == nil *)
@@ -75,6 +76,19 @@ Definition check_sent (name : string) (fmt : wire_format) (want : tnode) (m : me
              (name ++ ": ingest_params model differs from the stored metadata") ]
   end.
 
+(* the series name as written by a client: app{k=v,k2=v2} *)
+Fixpoint render_tags (tags : list (bytes * bytes)) : bytes :=
+  match tags with
+  | [] => []
+  | [(k, v)] => (k ++ 61 :: v)%list
+  | (k, v) :: rest => (k ++ 61 :: v ++ 44 :: render_tags rest)%list
+  end.
+Definition render_series (app : bytes) (tags : list (bytes * bytes)) : bytes :=
+  match tags with
+  | [] => app
+  | _ => (app ++ 123 :: render_tags tags ++ [125])%list
+  end.
+
 Definition job_meta (j : upload_job) : meta := (j_spy j, j_rate j, j_units j, j_aggregation j).
 
 Definition query_agrees (model got : query) : bool :=
@@ -91,7 +105,11 @@ Definition check_case (c : case) : verdict :=
     check_sent "tree" FTree want m (c_tree c) ++
     match c_job c, c_remote c with
     | Some j, Some (q, ct, s) =>
-        [ spec (tree_is want s) "remote upload: the stored profile is not the multiset that was sampled";
+        [ spec (match c_series c with
+                | Some (app, tags) => beqb (q_get (ascii "name") q) (render_series app tags) && beqb (j_name j) (render_series app tags)
+                | None => true
+                end) "remote upload: the server received another series name than the job's application name and tags";
+          spec (tree_is want s) "remote upload: the stored profile is not the multiset that was sampled";
           spec (meta_eqb (job_meta j) s) "remote upload: metadata of the job not stored";
           corr (query_agrees (upload_query j) q && beqb ct upload_content_type) "upload_query model differs from the request the server received";
           corr (let ip := ingest_params_of (upload_query j) upload_content_type in
